@@ -469,7 +469,9 @@ func NewEnclosedEnvironment(outer *Environment) *Environment {
 // set the function's name in that environment to avoid deep search for it.
 func NewFunctionEnvironment(fn Function, current *Environment) (*Environment, bool) {
 	parent := current
-	sameFunction := (current.cacheKey == fn.CacheKey)
+	// (the same function: same text and same definition environment - two closures made by one factory share
+	// their text but not their captured variables)
+	sameFunction := (current.cacheKey == fn.CacheKey) && current.function != nil && current.function.Env == fn.Env
 	if !sameFunction {
 		parent = fn.Env
 	}
